@@ -1,6 +1,7 @@
 package main
 
 import (
+	"sort"
 	"strconv"
 	"strings"
 	"unicode"
@@ -77,6 +78,30 @@ var classNames = []struct {
 	// the classes U+FFFD itself belongs to (a byte that is not UTF-8 is read as that rune), marks, format characters
 	{"So", 4}, {"S", 2}, {"Common", 2}, {"Mn", 3}, {"Cf", 2},
 }
+
+// allClassNames: every class name of Go's unicode tables, sorted; asciiClassNames: those with a member below U+0080
+var allClassNames, asciiClassNames = func() (all, ascii []string) {
+	seen := map[string]bool{}
+	for _, m := range []map[string]*unicode.RangeTable{unicode.Categories, unicode.Properties, unicode.Scripts} {
+		for k := range m {
+			if !seen[k] {
+				seen[k] = true
+				all = append(all, k)
+			}
+		}
+	}
+	sort.Strings(all)
+	for _, k := range all {
+		rt := rangeTable(k)
+		for r := rune(0); r < 0x80; r++ {
+			if unicode.Is(rt, r) {
+				ascii = append(ascii, k)
+				break
+			}
+		}
+	}
+	return all, ascii
+}()
 
 func srcRune(r rune) string {
 	switch r {
